@@ -319,6 +319,7 @@ const (
 	OpIdxGC   // B = scanFree, A = deadline cut (0 = none, n = Err() fails from its n-th call)
 	OpPriGC   // A = low-use percent, V = deadline cut
 	OpReopen  // A = 0 keep snapshot, 1 delete snapshot, 2 damage snapshot, 3 close twice
+	OpRebits  // Close, then reopen with index bit size A (re-bucketing)
 )
 
 // Op is one call in a history.
@@ -360,6 +361,8 @@ func (o Op) String() string {
 		return fmt.Sprintf("PrimaryGC(lowUse=%d)", o.A)
 	case OpReopen:
 		return [...]string{"Reopen[snapshot]", "Reopen[no-snapshot]", "Reopen[bad-snapshot]", "Close;Close;Reopen"}[o.A]
+	case OpRebits:
+		return fmt.Sprintf("ReopenWithBits[%d]", o.A)
 	}
 	return "?"
 }
@@ -706,6 +709,14 @@ func (w *World) step(op Op) *Violation {
 	case OpReopen:
 		if v := w.reopen(op.A); v != nil {
 			return v
+		}
+	case OpRebits:
+		if err := w.Close(); err != nil {
+			return viol("call-error", "Close: %v", err)
+		}
+		w.Cfg.Bits = uint8(op.A)
+		if err := w.Open(); err != nil {
+			return viol("open-error", "reopen with %d index bits: %v", op.A, err)
 		}
 	}
 	return nil
